@@ -183,14 +183,29 @@ fn main() {
             let seed: u64 = arg(&args, "--seed").and_then(|s| s.parse().ok()).unwrap_or(1);
             hooks::enable(true);
             let barrier = Arc::new(Barrier::new(threads));
+            // one envelope shared by all threads (the crate is built with its `multithreaded` feature)
+            let shared = sample();
+            let shared_ref = (hex::encode(shared.digest().data()), hex::encode(shared.tagged_cbor().to_cbor_data()), shared.structural_digest().data().to_vec());
             let mut hs = vec![];
             for t in 0..threads {
                 let b = barrier.clone();
+                let shared = shared.clone();
+                let shared_ref = shared_ref.clone();
                 hs.push(std::thread::spawn(move || {
                     let mut rng = StdRng::seed_from_u64(seed.wrapping_mul(7919).wrapping_add(t as u64));
                     let plan: Vec<&str> = (0..calls).map(|_| KINDS[rng.gen_range(0..KINDS.len())]).collect();
                     b.wait();
                     let mut res = vec![];
+                    {
+                        // digest, encoding and structure of the shared envelope as seen from this thread, also
+                        // after deriving from it
+                        let d = hex::encode(shared.digest().data());
+                        let c = hex::encode(shared.tagged_cbor().to_cbor_data());
+                        let sd = shared.structural_digest().data().to_vec();
+                        let derived = shared.add_assertion("t", t as u64).remove_assertion(Envelope::new_assertion("t", t as u64));
+                        let same = d == shared_ref.0 && c == shared_ref.1 && sd == shared_ref.2 && derived.is_identical_to(&shared);
+                        res.push(json!({"kind": "shared_envelope", "text": if same { "same" } else { "DIFFERENT" }}));
+                    }
                     for k in plan {
                         let r = std::panic::catch_unwind(|| run_kind(k));
                         match r {
@@ -242,6 +257,12 @@ fn main() {
                             for c in th["calls"].as_array().unwrap() {
                                 calls_done += 1;
                                 let k = c["kind"].as_str().unwrap();
+                                if k == "shared_envelope" {
+                                    if c["text"].as_str() != Some("same") {
+                                        problems.push(json!({"round": r, "threads": n, "seed": s, "what": "an envelope shared between threads gave a different digest / encoding / structure on one of them"}));
+                                    }
+                                    continue;
+                                }
                                 if let Some(p) = c.get("panic") {
                                     problems.push(json!({"round": r, "threads": n, "seed": s, "what": format!("{} panicked: {}", k, p)}));
                                     continue;
